@@ -335,9 +335,16 @@ def verify_function(c, registry, feas_timeout=300):
                 env2 = dict(env)
                 env2['result'] = v
                 post = eval_clauses(c, env2, st_c, registry, 'post')
+                extra = []          # conclusions of hints (lemma applications) proved so far on this path
                 for cl in post:
+                    if cl['kind'] == 'hint':
+                        ob = Obligation('%s#hint:%s' % (c.target, cl['label']), 'post', 'hint:' + cl['label'], list(st1.pc) + list(extra),
+                                        cl['premise'], c.props, cl['line'], note='premise of a lemma application')
+                        ob.inputs = record
+                        eng.obligations.append(ob)
+                        extra.append(cl['conclusion'])
                     if cl['kind'] == 'ensures':
-                        ob = Obligation('%s#post:%s' % (c.target, cl['label']), 'post', cl['label'], list(st1.pc),
+                        ob = Obligation('%s#post:%s' % (c.target, cl['label']), 'post', cl['label'], list(st1.pc) + list(extra),
                                         to_z3(cl['cond']), cl['props'] or c.props, cl['line'])
                         ob.inputs = record
                         eng.obligations.append(ob)
